@@ -108,13 +108,53 @@ pub struct GhostError;
 pub trait Storage {
     type Error;
     type MetadataIter: Iterator<Item = (Key, HLCTimestamp, bool)>;
-    fn get_keyspace_list(&self) -> Result<std::vec::Vec<String>, Self::Error>;
-    fn iter_metadata(&self, keyspace: &str) -> Result<Self::MetadataIter, Self::Error>;
+    fn get_keyspace_list(&self) -> Result<VVec<KsName>, Self::Error>;
+    fn iter_metadata(&self, keyspace: &KsCow<'static, str>) -> Result<Self::MetadataIter, Self::Error>;
 }
 
 pub const MAX_KS: usize = 2;
 pub const MAX_ROWS: usize = 2;
-pub const KS_NAMES: [&str; 2] = ["a", "b"];
+
+/// Keyspace names in the restart path are OPAQUE identifiers: `String` is replaced by `KsName` (the 64-bit order-preserving
+/// identity vcoll uses for strings of <= 7 bytes) and `Cow<'static, str>` by `KsCow` in the caller unit. Measured reason: heap
+/// `String`s (allocation, memcpy, memcmp, `Cow::clone`) were half of the 11.8 K byte-level operations of the composite function,
+/// whose formula exhausted memory in CBMC's propositional reduction. load_states_from_storage only moves, wraps and compares names.
+#[derive(Clone, Copy, PartialEq, Eq, PartialOrd, Ord, Debug)]
+pub struct KsName(pub u64);
+pub enum KsCow<'a, B: ?Sized + 'a> {
+    Borrowed(&'a B),
+    Owned(KsName),
+}
+impl<'a, B: ?Sized> Clone for KsCow<'a, B> {
+    fn clone(&self) -> Self {
+        match self {
+            KsCow::Borrowed(b) => KsCow::Borrowed(*b),
+            KsCow::Owned(n) => KsCow::Owned(*n),
+        }
+    }
+}
+impl<'a> vcoll::VKey for KsCow<'a, str> {
+    fn vkey(&self) -> u64 {
+        match self {
+            KsCow::Borrowed(b) => vcoll::VKey::vkey(*b),
+            KsCow::Owned(n) => n.0,
+        }
+    }
+}
+impl<'a> PartialEq for KsCow<'a, str> {
+    fn eq(&self, o: &Self) -> bool {
+        vcoll::VKey::vkey(self) == vcoll::VKey::vkey(o)
+    }
+}
+impl<'a> PartialOrd for KsCow<'a, str> {
+    fn partial_cmp(&self, o: &Self) -> Option<core::cmp::Ordering> {
+        vcoll::VKey::vkey(self).partial_cmp(&vcoll::VKey::vkey(o))
+    }
+}
+/// the names used by the group unit (real `Cow<str>` keys there)
+pub const KS_STRS: [&str; 2] = ["a", "b"];
+/// identities of the names "a" and "b"
+pub const KS_NAMES: [KsName; 2] = [KsName(0x6100_0000_0000_0001), KsName(0x6200_0000_0000_0001)];
 
 /// what storage holds: per keyspace, up to MAX_ROWS metadata rows (id, stamp, tombstone flag)
 pub struct GhostStore {
@@ -132,24 +172,24 @@ impl GhostStore {
 impl Storage for GhostStore {
     type Error = GhostError;
     type MetadataIter = vcoll::vvec::IntoIter<(Key, HLCTimestamp, bool)>;
-    fn get_keyspace_list(&self) -> Result<std::vec::Vec<String>, GhostError> {
+    fn get_keyspace_list(&self) -> Result<VVec<KsName>, GhostError> {
         if self.fail_list {
             return Err(GhostError);
         }
-        let mut v = std::vec::Vec::new();
+        let mut v = VVec::new();
         let mut i = 0;
         while i < MAX_KS {
             if i < self.n_ks {
-                v.push(KS_NAMES[i].to_string());
+                v.push(KS_NAMES[i]);
             }
             i += 1;
         }
         Ok(v)
     }
-    fn iter_metadata(&self, keyspace: &str) -> Result<Self::MetadataIter, GhostError> {
+    fn iter_metadata(&self, keyspace: &KsCow<'static, str>) -> Result<Self::MetadataIter, GhostError> {
         let mut i = 0;
         while i < MAX_KS {
-            if keyspace == KS_NAMES[i] {
+            if vcoll::VKey::vkey(keyspace) == KS_NAMES[i].0 {
                 if self.fail_rows[i] {
                     return Err(GhostError);
                 }
